@@ -912,6 +912,7 @@ def check_flow(prog: Program, rep: Report):
         rep.check(wr, "R10.4", w.qualname, w.loc, "closure decorated with functools.wraps(obj) (metadata preserved)", "wrap(): closure is not decorated with functools.wraps(obj)", detail="wraps")
         # the closure is what is returned on the non-class path; class path rebinds __init__
         ret_closure = cls_branch = False
+        cls_bare: list = []
         for pth in wpaths:
             g = pth.guards()
             isclass = [pol for tm, pol in g if T.is_call_to(tm, "inspect.isclass") and tm[2] == (("param", "obj"),)]
@@ -926,8 +927,11 @@ def check_flow(prog: Program, rep: Report):
                     st = [e for e in pth.events if e[0] == "setattr" and e[1] == ("param", "obj") and e[2] == "__init__"]
                     if st and T.is_call_to(st[0][3], f"{MOD}.wrap") and st[0][3][2] == (("attr", ("param", "obj"), "__init__"),) and pth.exit[1] == ("param", "obj"):
                         cls_branch = True
+                    elif pth.exit[1] == ("param", "obj") and not st:
+                        cls_bare.append(pth)
         rep.check(ret_closure, "R10.4", w.qualname, w.loc, "non-class path returns the wrapping closure", detail="returns-closure")
         rep.check(cls_branch, "R10.4", w.qualname, w.loc, "class path rebinds obj.__init__ = wrap(obj.__init__) and returns obj", detail="class-branch")
+        rep.check(not cls_bare, "R10.4", w.qualname, w.loc, "no class comes back from wrap() with the constructor it came in with", "an exit of wrap() hands a class back without having replaced its constructor: a decorated class that inherits __init__ (or whatever the added condition excludes) is returned as it is, every argument reaches the constructor unconverted and nothing raises", detail="class-branch-every-exit")
     # forwarding wrappers own no parameter a caller's keyword could land on: `**kwargs` belongs to the wrapped callable
     import ast as _ast2
 
